@@ -742,6 +742,10 @@ def run(ctx):
     r10 = ctx.rule("C13.R10", "an attempt that failed or timed out is dissolved before the next address is tried on the same descriptor")
     check_attempt_dissolved(P, r10, nx)
 
+    # ------------------------------------------------------------------ R11
+    r11 = ctx.rule("C13.R11", "every change of the timer manager's list of pending timers re-evaluates the timer descriptor before returning")
+    check_timer_rearm(P, r11)
+
     # ------------------------------------------------------------------ R8
     r8 = ctx.rule("C13.R8", "the resolver reports the number of addresses it handed out: the result never exceeds the caller's capacity")
     from .. import bounds as B
@@ -815,10 +819,90 @@ def check_no_float_truncation(P, rule):
         raise Broken("float-truncation: only %d floating-to-integer conversions found (timespec conversion expected)" % n)
 
 
+def check_timer_rearm(P, rule):
+    """every timeout of the library (dns.timeout, tcp.connect_timeout, the happy-eyeballs delays) is an entry in the
+    timer manager's list, and the one timer descriptor is armed for the earliest entry.  A function that changes the
+    list and returns without re-evaluating the descriptor leaves it armed for an entry that is gone or not armed for
+    the new earliest one: the timeout never fires.  Exempt: functions whose only callers close the descriptor."""
+    fns = [f for f in P.functions if f.file.endswith("core/timer_mgr.c")]
+    if not fns:
+        raise Broken("timer-rearm: timer_mgr.c not analysed")
+    LISTF = ("lh_first", "le_next", "le_prev")
+    cg = P.callers()
+    arms = set()
+    changed = True
+    while changed:
+        changed = False
+        for f in fns:
+            if f in arms:
+                continue
+            for c in f.calls():
+                ds, exts = P.callees(f, c)
+                if "timerfd_settime" in exts or any(d in arms for d in ds):
+                    arms.add(f)
+                    changed = True
+                    break
+    if not arms:
+        raise Broken("timer-rearm: no function arms the timer descriptor")
+
+    def closes_fd(g):
+        return any(g.nodes[c].get("callee") in ("ut_close", "close") and "timer_fd" in g.show(g.nodes[c]["args"][0]) for c in g.calls() if g.nodes[c].get("args"))
+    nchk = 0
+    for f in sorted(fns, key=lambda g: g.name):
+        stores = [nid for nid, n in f.nodes.items() if n["k"] == "bin" and n["op"] == "=" and any(x in f.show(n["l"]) for x in LISTF)]
+        if not stores:
+            continue
+        if any(True for _ in f.calls("timerfd_create")) and all(C.const_of(f, f.nodes[nid]["r"]) == 0 for nid in stores):
+            rule.note("%s: initialises the empty list of a descriptor it has just created (disarmed)" % f.name)
+            continue
+        callers = {g for g, c in cg.get(f, [])}
+        if callers and all(closes_fd(g) for g in callers):
+            rule.note("%s: only called where the timer descriptor is closed (%s)" % (f.name, ", ".join(sorted(g.name for g in callers))))
+            continue
+        nchk += 1
+        rule.instance("%s changes the list of pending timers" % f.qname)
+        bad = []
+
+        class Rearm(S.SeqRule):
+            max_depth = 1
+
+            def user0(s2, fn):
+                return False
+
+            def on_store(s2, fn, st, nid, lhs, rhs, op):
+                if fn is f and any(x in fn.show(lhs) for x in LISTF):
+                    return True
+                return None
+
+            def on_call(s2, fn, st, nid, callees, exts):
+                if any(d in arms for d in callees):
+                    return False
+                return None
+
+            def on_exit(s2, fn, st, ret_nid, ret_cls, top):
+                if top and st.user and not bad:
+                    bad.append(ret_nid)
+        S.run(Rearm(P), f)
+        if bad:
+            rule.violation("%s:list-changed-descriptor-not-updated" % f.name, "%s can return after changing the list of pending timers without re-evaluating the timer descriptor "
+                           "(%s): the descriptor stays armed for an earlier state of the list, and a timeout scheduled now (dns.timeout, tcp.connect_timeout, an "
+                           "address-family delay) does not wake the application" % (f.name, ", ".join(sorted(g.name for g in arms if g.static))[:80]),
+                           loc=f.loc(bad[0]) if bad[0] is not None else f.file)
+        else:
+            rule.ok("%s: every path from a change of the list to the return re-evaluates the descriptor" % f.qname, "path exploration")
+    if nchk < 2:
+        raise Broken("timer-rearm: only %d list-changing functions found" % nchk)
+
+
 def check_attempt_dissolved(P, rule, nx):
     """before the tracker starts the next attempt on a descriptor it dissolves the one in progress (connect() to an
     AF_UNSPEC address): a socket left in SYN_SENT answers the next connect() with EALREADY, for ever"""
     aborters = [g for g in P.fns_in(nx.file.split("/")[-1]) if g.file == nx.file and g.static and g is not nx and any(True for _ in g.calls("connect"))]
+    if not aborters:
+        # the dissolving connect() is gone: the helper is the one the attempt function itself calls to take an attempt
+        # down (it cancels the attempt's timer)
+        aborters = [g for g in {d for c in nx.calls() for d in P.callees(nx, c)[0]} if g.static and g.file == nx.file and g is not nx
+                    and any("cancel" in (g.nodes[c].get("callee") or "") for c in g.calls())]
     if len(aborters) != 1:
         raise Broken("attempt-dissolved: the helper that dissolves an attempt was not identified (%s)" % [g.name for g in aborters])
     ab = aborters[0]
